@@ -630,6 +630,10 @@ impl Dup for VirtualSystem {
     fn dup2(&self, from: Fd, to: Fd) -> Result<Fd> {
         let mut process = self.current_process_mut();
         let mut body = process.fds.get(&from).ok_or(Errno::EBADF)?.clone();
+        if from == to {
+            // Nothing is duplicated and the descriptor flags are kept.
+            return Ok(to);
+        }
         body.flags = EnumSet::empty();
         process.set_fd(to, body).map_err(|_| Errno::EBADF)?;
         Ok(to)
